@@ -229,6 +229,13 @@ class FnTranslator:
             if name in ("min", "max", "amin", "amax") and len(n.args) == 1:
                 self._need_filtered_data(n.args[0], n)
                 return ("var", "dmin" if name in ("min", "amin") else "dmax"), "np"
+            if name in ("log1p", "expm1") and len(n.args) == 1:
+                # log1p(e) = ln(e + 1), expm1(e) = exp(e) - 1 over R (the ufuncs only differ in rounding)
+                e, _k = self.expr(n.args[0])
+                one = ("const", Fraction(1))
+                if name == "log1p":
+                    return ("un", "ln", ("bin", "+", e, one)), "float"
+                return ("bin", "-", ("un", "exp", e), one), "float"
             if name in UNARY and len(n.args) == 1:
                 e, k = self.expr(n.args[0])
                 op = UNARY[name]
@@ -490,6 +497,12 @@ class BodyExec:
                     and len(v.slice.args) == 1 and isinstance(v.slice.args[0], ast.Name)
                     and v.slice.args[0].id == V):
                 env.filtered = True
+                return
+            # values = values.astype(float, copy=False): a cast to floating point, identity over R
+            if (isinstance(v, ast.Call) and isinstance(v.func, ast.Attribute) and v.func.attr == "astype"
+                    and isinstance(v.func.value, ast.Name) and v.func.value.id == V and len(v.args) == 1
+                    and (_is_np(v.args[0], "float64") or (isinstance(v.args[0], ast.Name) and v.args[0].id == "float"))
+                    and [k.arg for k in v.keywords] in ([], ["copy"])):
                 return
         if name == V and V in env.vars:
             # values = np.array(values, copy=copy): a copy, identity on the contents
